@@ -7,6 +7,7 @@ import (
 	"go/token"
 	"go/types"
 	"sort"
+	"strconv"
 	"strings"
 
 	"golang.org/x/tools/go/cfg"
@@ -4399,4 +4400,297 @@ func c13ZeroArgs(c *core.Ctx) {
 	}
 	c.Floor("C13.zeroargs", "positional calls that keep zero values", m, 10)
 	c.Floor("C13.zeroargs", "exempted positional calls", n, 8)
+}
+
+// c02ForkNamespace (F137): the task master keeps the forks of the tasks and those of other subscribers (stream recordings) in
+// one table keyed by name. A subscriber outside the kapacitor package names its fork so that it cannot collide with a task ID
+// — a constant prefix containing a character the ID pattern ^[-\._\p{L}0-9]+$ excludes — and unregisters it on every path
+// that leaves after the registration: a fork nobody reads blocks the fan-out for every task once its buffer is full.
+func c02ForkNamespace(c *core.Ctx) {
+	c.Rule("C02.forkns", "A6/A2: F137: every TaskMaster.NewFork call of another package names the fork <constant prefix with a character no task ID may contain> + <id>, with the very variable DelFork is given, and no return statement stands between the registration's own error test and the DelFork call: a recording named like a running task otherwise replaces the task's edge in the fork table, and a recording that fails after subscribing leaves a fork nobody reads")
+	sp := c.P.Pkg("services/replay")
+	if sp == nil {
+		c.Note("C02.forkns: services/replay is not loaded in this run")
+		return
+	}
+	info := sp.TypesInfo
+	n := 0
+	for _, f := range core.AllFuncs(sp) {
+		var nf, df *ast.CallExpr
+		ast.Inspect(f.Decl.Body, func(nd ast.Node) bool {
+			if call, ok := nd.(*ast.CallExpr); ok {
+				if sel, ok := call.Fun.(*ast.SelectorExpr); ok && len(call.Args) >= 1 {
+					switch sel.Sel.Name {
+					case "NewFork":
+						nf = call
+					case "DelFork":
+						df = call
+					}
+				}
+			}
+			return true
+		})
+		if nf == nil {
+			continue
+		}
+		n++
+		c.Analysed(f)
+		name := f.Decl.Name.Name
+		// the name: a local defined once as "<prefix>" + x, used for both calls
+		okName, why := false, "the fork is named "+types.ExprString(nf.Args[0])
+		if id, ok := ast.Unparen(nf.Args[0]).(*ast.Ident); ok {
+			obj := info.Uses[id]
+			defs := 0
+			ast.Inspect(f.Decl.Body, func(nd ast.Node) bool {
+				as, ok := nd.(*ast.AssignStmt)
+				if !ok {
+					return true
+				}
+				for i, l := range as.Lhs {
+					lid, ok := ast.Unparen(l).(*ast.Ident)
+					if !ok || (info.Defs[lid] != obj && info.Uses[lid] != obj) || i >= len(as.Rhs) {
+						continue
+					}
+					defs++
+					if be, ok := ast.Unparen(as.Rhs[i]).(*ast.BinaryExpr); ok && be.Op == token.ADD {
+						if tv, ok := info.Types[be.X]; ok && tv.Value != nil && tv.Value.Kind() == constant.String {
+							pre := constant.StringVal(tv.Value)
+							if strings.ContainsAny(pre, "/:@ ") {
+								okName = true
+							} else {
+								why = "the prefix " + strconv.Quote(pre) + " consists of characters a task ID may contain"
+							}
+						}
+					} else {
+						why = "the fork is named " + types.ExprString(as.Rhs[i])
+					}
+				}
+				return true
+			})
+			if defs != 1 {
+				okName = false
+			}
+			if df != nil {
+				if did, ok := ast.Unparen(df.Args[0]).(*ast.Ident); !ok || info.Uses[did] != obj {
+					okName, why = false, "DelFork is given "+types.ExprString(df.Args[0])+", NewFork "+types.ExprString(nf.Args[0])
+				}
+			}
+		}
+		c.Check(okName, "C02.forkns", name+"#name", nf.Pos(), "%s registers a fork whose name can be the ID of a task (%s): `record stream -task T -recording-id T` replaces T's edge in the task master's fork table — T receives nothing while the recording runs, loses its subscription when it ends, and cannot be stopped afterwards", name, why)
+		// no return between the registration and DelFork, except in the if that tests NewFork's error
+		if df == nil {
+			c.Fail("C02.forkns", name+"#unregister", nf.Pos(), "%s registers a fork and never calls DelFork", name)
+			continue
+		}
+		leak := token.NoPos
+		var errIf *ast.IfStmt
+		ast.Inspect(f.Decl.Body, func(nd ast.Node) bool {
+			if is, ok := nd.(*ast.IfStmt); ok && is.Pos() > nf.End() && errIf == nil {
+				errIf = is
+			}
+			return true
+		})
+		ast.Inspect(f.Decl.Body, func(nd ast.Node) bool {
+			if _, ok := nd.(*ast.FuncLit); ok {
+				return false
+			}
+			ret, ok := nd.(*ast.ReturnStmt)
+			if !ok || ret.Pos() < nf.End() || ret.Pos() > df.Pos() {
+				return true
+			}
+			if errIf != nil && ret.Pos() > errIf.Pos() && ret.End() <= errIf.End() {
+				return true
+			}
+			leak = ret.Pos()
+			return true
+		})
+		c.Check(leak == token.NoPos, "C02.forkns", name+"#unregister", leak, "%s can return between NewFork and DelFork: the fork stays registered and unread — after 1000 points its buffer is full and the task master's fan-out blocks for every task that shares a database with it", name)
+	}
+	c.Floor("C02.forkns", "NewFork call sites outside the kapacitor package", n, 1)
+}
+
+// c19AgentClose (F138): the Go agent is started on one connection for both directions when it serves a socket
+// (agent.New(conn, conn)). Kapacitor ends a UDF by closing its own side for writing and then reads what is still to come: the
+// agent's read loop sees the end of its input while the write loop still has responses to write. The read loop therefore
+// closes its input only when it is not also the output.
+func c19AgentClose(c *core.Ctx) {
+	c.Rule("C19.agentclose", "A2: F138: Agent.readLoop closes a.in only under a test that input and output are different objects (the write loop closes the one connection of a socket agent after the last response): an unconditional Close of the input, deferred or not, cuts off the responses of the last points when Kapacitor closes its side for writing")
+	fn := c.Need("C19.agentclose", "udf/agent", "Agent", "readLoop")
+	if fn == nil {
+		return
+	}
+	ap := c.P.Pkg("udf/agent")
+	info := ap.TypesInfo
+	closes, conditional := 0, 0
+	var walk func(n ast.Node, underTest bool)
+	walk = func(n ast.Node, underTest bool) {
+		ast.Inspect(n, func(m ast.Node) bool {
+			switch x := m.(type) {
+			case *ast.IfStmt:
+				// a condition that mentions both a.in and a.out
+				in, out := false, false
+				ast.Inspect(x.Cond, func(e ast.Node) bool {
+					if sel, ok := e.(*ast.SelectorExpr); ok {
+						if an.FieldSel(info, sel, "Agent", "in") {
+							in = true
+						}
+						if an.FieldSel(info, sel, "Agent", "out") {
+							out = true
+						}
+					}
+					return true
+				})
+				walk(x.Body, underTest || (in && out))
+				if x.Else != nil {
+					walk(x.Else, underTest || (in && out))
+				}
+				return false
+			case *ast.CallExpr:
+				if sel, ok := x.Fun.(*ast.SelectorExpr); ok && sel.Sel.Name == "Close" && an.FieldSel(info, sel.X, "Agent", "in") {
+					closes++
+					if underTest {
+						conditional++
+					}
+				}
+			}
+			return true
+		})
+	}
+	walk(fn.Decl.Body, false)
+	c.Check(closes == conditional, "C19.agentclose", "Agent.readLoop", fn.Decl.Pos(), "Agent.readLoop closes its input without testing that it is not also the output (%d of %d Close calls under such a test): an agent serving a socket has one connection for both, Kapacitor closes its side for writing and reads on — the responses the write loop has not written yet are lost ('use of closed network connection'), the last points of a stopped task never come back", conditional, closes)
+}
+
+// c07WaitAll (F139): ExecutingTask.Wait is how the task store notices that a task has failed — it then stops the task, which is
+// what ends the nodes that only end when told to (stats). Waiting for the nodes one after the other hides a failure behind
+// every node that comes earlier in the order and runs on: each node is waited for in a goroutine of its own, and Wait returns
+// the first failure it receives.
+func c07WaitAll(c *core.Ctx, root *packages.Package) {
+	c.Rule("C07.waitall", "A2: F139: in ExecutingTask.Wait every Node.Wait call runs in a goroutine of its own (none in Wait's own frame or in a walk callback, which would wait for the nodes one after the other), and Wait returns as soon as it has received a non-nil error: a failed node is reported although a stats node of the same task runs on, so that the task store stops the task and the remaining nodes end")
+	fn := c.Need("C07.waitall", "", "ExecutingTask", "Wait")
+	if fn == nil {
+		return
+	}
+	c.Analysed(fn)
+	info := root.TypesInfo
+	inGo, outside := 0, 0
+	var walk func(n ast.Node, g bool)
+	walk = func(n ast.Node, g bool) {
+		ast.Inspect(n, func(m ast.Node) bool {
+			switch x := m.(type) {
+			case *ast.GoStmt:
+				if lit, ok := ast.Unparen(x.Call.Fun).(*ast.FuncLit); ok {
+					walk(lit.Body, true)
+					return false
+				}
+			case *ast.CallExpr:
+				if sel, ok := x.Fun.(*ast.SelectorExpr); ok && sel.Sel.Name == "Wait" && len(x.Args) == 0 {
+					if n := core.NamedOf(info.TypeOf(sel.X)); n != nil && n.Obj().Name() == "Node" {
+						if g {
+							inGo++
+						} else {
+							outside++
+						}
+					}
+				}
+			}
+			return true
+		})
+	}
+	walk(fn.Decl.Body, false)
+	// a return of a received non-nil error
+	early := false
+	ast.Inspect(fn.Decl.Body, func(m ast.Node) bool {
+		is, ok := m.(*ast.IfStmt)
+		if !ok {
+			return true
+		}
+		recv := false
+		if is.Init != nil {
+			ast.Inspect(is.Init, func(e ast.Node) bool {
+				if u, ok := e.(*ast.UnaryExpr); ok && u.Op == token.ARROW {
+					recv = true
+				}
+				return true
+			})
+		}
+		if !recv {
+			return true
+		}
+		for _, st := range is.Body.List {
+			if _, ok := st.(*ast.ReturnStmt); ok {
+				early = true
+			}
+		}
+		return true
+	})
+	c.Check(inGo > 0 && outside == 0 && early, "C07.waitall", "ExecutingTask.Wait", fn.Decl.Pos(), "ExecutingTask.Wait waits for the nodes one after the other (Node.Wait calls in goroutines of their own: %d, elsewhere: %d; returns on the first received error: %v): a node that only ends when it is stopped (stats) keeps Wait from ever reaching the node that failed — the task store never notices the failure, never stops the task, and the remaining nodes never end", inGo, outside, early)
+}
+
+// c07CloseOrder (F140): Topics.Close takes every topic out of the table and only then closes them one by one, which is
+// what delivers the events still queued for their handlers. A handler that republishes (publish to another topic) collects
+// through the same Topics object while its topic drains: the target is no longer in the table, Collect creates a fresh topic
+// of that name without handlers, and the event is dropped. A topic must stay in the table until the topics that may publish
+// to it have drained — here: no topic leaves the table before some topic has been closed.
+func c07CloseOrder(c *core.Ctx) {
+	c.Rule("C07.closeorder", "A2: F140: Topics.Close does not empty the topic table before the handlers have worked off their queues — either a loop of Topic.flush rounds stands before the table is emptied, or no topic leaves the table before the first one is closed (drained): an event a republishing handler forwards while its topic drains must find the target topic — with its handlers — still in the table, otherwise Collect creates an empty topic of that name and the event reaches no handler")
+	ap := c.P.Pkg("alert")
+	if ap == nil {
+		c.Note("C07.closeorder: alert is not loaded in this run")
+		return
+	}
+	fn := c.Need("C07.closeorder", "alert", "Topics", "Close")
+	if fn == nil {
+		return
+	}
+	c.Analysed(fn)
+	info := ap.TypesInfo
+	// a loop over s.topics that deletes every entry, before any close() call
+	firstClose, delLoop := token.NoPos, token.NoPos
+	ast.Inspect(fn.Decl.Body, func(nd ast.Node) bool {
+		switch x := nd.(type) {
+		case *ast.RangeStmt:
+			if !an.FieldSel(info, x.X, "Topics", "topics") {
+				return true
+			}
+			dels, conditional := false, false
+			for _, st := range x.Body.List {
+				if es, ok := st.(*ast.ExprStmt); ok {
+					if call, ok := es.X.(*ast.CallExpr); ok && core.IsBuiltin(info, call, "delete") && len(call.Args) == 2 && an.FieldSel(info, call.Args[0], "Topics", "topics") {
+						dels = true
+					}
+				}
+				if _, ok := st.(*ast.IfStmt); ok {
+					conditional = true
+				}
+			}
+			if dels && !conditional && delLoop == token.NoPos {
+				delLoop = x.Pos()
+			}
+		case *ast.CallExpr:
+			if cal := core.Callee(info, x); cal != nil && cal.Name() == "close" && core.RecvTypeName(cal) == "Topic" && firstClose == token.NoPos {
+				firstClose = x.Pos()
+			}
+		}
+		return true
+	})
+	// F140's repair: before the table is emptied, the handlers of all topics work off their queues (Topic.flush), in a loop
+	// that goes on while a round delivered something
+	flushed := false
+	ast.Inspect(fn.Decl.Body, func(nd ast.Node) bool {
+		fs, ok := nd.(*ast.ForStmt)
+		if !ok || (delLoop != token.NoPos && fs.Pos() > delLoop) {
+			return true
+		}
+		ast.Inspect(fs.Body, func(m ast.Node) bool {
+			if call, ok := m.(*ast.CallExpr); ok {
+				if cal := core.Callee(info, call); cal != nil && cal.Name() == "flush" && core.RecvTypeName(cal) == "Topic" {
+					flushed = true
+				}
+			}
+			return true
+		})
+		return true
+	})
+	bad := delLoop != token.NoPos && (firstClose == token.NoPos || delLoop < firstClose) && !flushed
+	c.Check(!bad, "C07.closeorder", "Topics.Close#table-emptied-first", delLoop, "Topics.Close deletes every topic from the table before it closes the first one: while topic A drains, its publish handler collects into topic B through Topics.Collect, finds no B, creates an empty one — the event, accepted before the shutdown, reaches none of B's handlers")
 }
